@@ -81,7 +81,9 @@ class TestCaseMutation(MutationOperator):
         assert test_factory, "Required for mutation"
         if not test_factory.has_call_on_sut(chromosome.test_case):
             chromosome.test_case = backup
-            chromosome._mutation_insert()  # noqa: SLF001
+            if chromosome._mutation_insert():  # noqa: SLF001
+                # The restored test case was extended, cached results are stale.
+                changed = True
 
         if changed:
             chromosome.changed = True
